@@ -36,9 +36,10 @@ Definition fg_kill_delay (until : Z) : Z := if fg_kill_delay_is_grace then grace
 
 (* ------------------------------------------------------------------ 2. interleavings of waitOrStop *)
 
-Inductive wpc := WWait | WRecv | WDoneWait | WDoneCtx.
+Inductive wpc := WWait | WRecv | WDoneWait | WDoneCtx | WDoneSig.
 (* WWait: in cmd.Wait;  WRecv: blocked on <-errc;  WDoneWait: returned Wait's own result;
-   WDoneCtx: returned the interrupt error (ctx.Err()) *)
+   WDoneCtx: returned the interrupt error (ctx.Err());  WDoneSig: returned the error of
+   Process.Signal (an error other than os.ErrProcessDone) *)
 Inductive hpc := HSel1 | HSig | HSendNil | HAfterSig | HSel2 | HKill | HSendErr | HDone.
 (* HSel1: select { errc <- nil; <-ctx.Done() };  HSig: about to call Signal;  HSendNil: errc <- nil
    after ErrProcessDone;  HAfterSig: the killDelay test;  HSel2: select { errc <- ctx.Err(); <-timer.C };
@@ -52,6 +53,7 @@ Record ustate := {
   utm : tmr;
   uintr : bool;       (* Signal(interrupt) returned nil *)
   ukil : bool;        (* Kill was called *)
+  usigerr : bool;     (* Signal(interrupt) returned an error other than os.ErrProcessDone *)
   usent : nat; urecv : nat
 }.
 
@@ -59,7 +61,8 @@ Record uparams := {
   has_ctx : bool;     (* a deadline was set (otherwise ctx.Done() never fires) *)
   kd_pos : bool;      (* killDelay > 0 *)
   self_exit : bool;   (* the process may exit by itself *)
-  int_exit : bool     (* the process exits some time after the interrupt *)
+  int_exit : bool;    (* the process exits some time after the interrupt *)
+  sig_fails : bool    (* Process.Signal fails with an error other than os.ErrProcessDone *)
 }.
 
 Inductive ulabel :=
@@ -75,12 +78,12 @@ Definition thread_labels : list ulabel := [LWaitRet; LRendezvous; LSelCtx; LSign
 Definition unconditional_labels : list ulabel := [LWaitRet; LRendezvous; LSignal; LArm; LKill].
 
 Definition uinit : ustate :=
-  {| uw := WWait; uh := HSel1; upr := PRun; uctx := false; utm := TNone; uintr := false; ukil := false; usent := 0; urecv := 0 |}.
+  {| uw := WWait; uh := HSel1; upr := PRun; uctx := false; utm := TNone; uintr := false; ukil := false; usigerr := false; usent := 0; urecv := 0 |}.
 
-Definition set_w (s : ustate) (x : wpc) := {| uw := x; uh := uh s; upr := upr s; uctx := uctx s; utm := utm s; uintr := uintr s; ukil := ukil s; usent := usent s; urecv := urecv s |}.
-Definition set_h (s : ustate) (x : hpc) := {| uw := uw s; uh := x; upr := upr s; uctx := uctx s; utm := utm s; uintr := uintr s; ukil := ukil s; usent := usent s; urecv := urecv s |}.
-Definition set_pr (s : ustate) (x : pst) := {| uw := uw s; uh := uh s; upr := x; uctx := uctx s; utm := utm s; uintr := uintr s; ukil := ukil s; usent := usent s; urecv := urecv s |}.
-Definition set_tm (s : ustate) (x : tmr) := {| uw := uw s; uh := uh s; upr := upr s; uctx := uctx s; utm := x; uintr := uintr s; ukil := ukil s; usent := usent s; urecv := urecv s |}.
+Definition set_w (s : ustate) (x : wpc) := {| uw := x; uh := uh s; upr := upr s; uctx := uctx s; utm := utm s; uintr := uintr s; ukil := ukil s; usigerr := usigerr s; usent := usent s; urecv := urecv s |}.
+Definition set_h (s : ustate) (x : hpc) := {| uw := uw s; uh := x; upr := upr s; uctx := uctx s; utm := utm s; uintr := uintr s; ukil := ukil s; usigerr := usigerr s; usent := usent s; urecv := urecv s |}.
+Definition set_pr (s : ustate) (x : pst) := {| uw := uw s; uh := uh s; upr := x; uctx := uctx s; utm := utm s; uintr := uintr s; ukil := ukil s; usigerr := usigerr s; usent := usent s; urecv := urecv s |}.
+Definition set_tm (s : ustate) (x : tmr) := {| uw := uw s; uh := uh s; upr := upr s; uctx := uctx s; utm := x; uintr := uintr s; ukil := ukil s; usigerr := usigerr s; usent := usent s; urecv := urecv s |}.
 
 Definition is_prun (x : pst) := match x with PRun => true | _ => false end.
 
@@ -88,7 +91,7 @@ Definition ustep (p : uparams) (l : ulabel) (s : ustate) : option ustate :=
   match l with
   | LCtxFire =>
       if has_ctx p && negb (uctx s)
-      then Some {| uw := uw s; uh := uh s; upr := upr s; uctx := true; utm := utm s; uintr := uintr s; ukil := ukil s; usent := usent s; urecv := urecv s |}
+      then Some {| uw := uw s; uh := uh s; upr := upr s; uctx := true; utm := utm s; uintr := uintr s; ukil := ukil s; usigerr := usigerr s; usent := usent s; urecv := urecv s |}
       else None
   | LSelfExit => if is_prun (upr s) && self_exit p then Some (set_pr s PZombie) else None
   | LIntExit => if is_prun (upr s) && uintr s && int_exit p then Some (set_pr s PZombie) else None
@@ -104,9 +107,13 @@ Definition ustep (p : uparams) (l : ulabel) (s : ustate) : option ustate :=
       | WRecv =>
           match uh s with
           | HSel1 | HSendNil =>
-              Some {| uw := WDoneWait; uh := HDone; upr := upr s; uctx := uctx s; utm := utm s; uintr := uintr s; ukil := ukil s; usent := S (usent s); urecv := S (urecv s) |}
-          | HSel2 | HSendErr =>
-              Some {| uw := WDoneCtx; uh := HDone; upr := upr s; uctx := uctx s; utm := utm s; uintr := uintr s; ukil := ukil s; usent := S (usent s); urecv := S (urecv s) |}
+              Some {| uw := WDoneWait; uh := HDone; upr := upr s; uctx := uctx s; utm := utm s; uintr := uintr s; ukil := ukil s; usigerr := usigerr s; usent := S (usent s); urecv := S (urecv s) |}
+          | HSendErr =>
+              (* errc <- err: ctx.Err() when Signal succeeded, Signal's own error otherwise *)
+              Some {| uw := if usigerr s then WDoneSig else WDoneCtx; uh := HDone; upr := upr s; uctx := uctx s; utm := utm s; uintr := uintr s; ukil := ukil s; usigerr := usigerr s; usent := S (usent s); urecv := S (urecv s) |}
+          | HSel2 =>
+              (* case errc <- ctx.Err() *)
+              Some {| uw := WDoneCtx; uh := HDone; upr := upr s; uctx := uctx s; utm := utm s; uintr := uintr s; ukil := ukil s; usigerr := usigerr s; usent := S (usent s); urecv := S (urecv s) |}
           | _ => None
           end
       | _ => None
@@ -117,7 +124,10 @@ Definition ustep (p : uparams) (l : ulabel) (s : ustate) : option ustate :=
       | HSig =>
           match upr s with
           | PReaped => Some (set_h s HSendNil)       (* os.ErrProcessDone *)
-          | _ => Some {| uw := uw s; uh := HAfterSig; upr := upr s; uctx := uctx s; utm := utm s; uintr := true; ukil := ukil s; usent := usent s; urecv := urecv s |}
+          | _ =>
+              if sig_fails p
+              then Some {| uw := uw s; uh := HAfterSig; upr := upr s; uctx := uctx s; utm := utm s; uintr := uintr s; ukil := ukil s; usigerr := true; usent := usent s; urecv := urecv s |}
+              else Some {| uw := uw s; uh := HAfterSig; upr := upr s; uctx := uctx s; utm := utm s; uintr := true; ukil := ukil s; usigerr := usigerr s; usent := usent s; urecv := urecv s |}
           end
       | _ => None
       end
@@ -129,7 +139,7 @@ Definition ustep (p : uparams) (l : ulabel) (s : ustate) : option ustate :=
   | LSelTimer => match uh s, utm s with HSel2, TFired => Some (set_h s HKill) | _, _ => None end
   | LKill =>
       match uh s with
-      | HKill => Some {| uw := uw s; uh := HSendErr; upr := upr s; uctx := uctx s; utm := utm s; uintr := uintr s; ukil := true; usent := usent s; urecv := urecv s |}
+      | HKill => Some {| uw := uw s; uh := HSendErr; upr := upr s; uctx := uctx s; utm := utm s; uintr := uintr s; ukil := true; usigerr := usigerr s; usent := usent s; urecv := urecv s |}
       | _ => None
       end
   end.
@@ -142,7 +152,7 @@ Fixpoint uexec (p : uparams) (ls : list ulabel) (s : ustate) : option ustate :=
 
 (* ---- equality and exploration of the reachable set *)
 
-Definition wpc_n (x : wpc) : nat := match x with WWait => 0 | WRecv => 1 | WDoneWait => 2 | WDoneCtx => 3 end.
+Definition wpc_n (x : wpc) : nat := match x with WWait => 0 | WRecv => 1 | WDoneWait => 2 | WDoneCtx => 3 | WDoneSig => 4 end.
 Definition hpc_n (x : hpc) : nat := match x with HSel1 => 0 | HSig => 1 | HSendNil => 2 | HAfterSig => 3 | HSel2 => 4 | HKill => 5 | HSendErr => 6 | HDone => 7 end.
 Definition pst_n (x : pst) : nat := match x with PRun => 0 | PZombie => 1 | PReaped => 2 end.
 Definition tmr_n (x : tmr) : nat := match x with TNone => 0 | TArmed => 1 | TFired => 2 end.
@@ -150,7 +160,7 @@ Definition tmr_n (x : tmr) : nat := match x with TNone => 0 | TArmed => 1 | TFir
 Definition ustate_eqb (a b : ustate) : bool :=
   Nat.eqb (wpc_n (uw a)) (wpc_n (uw b)) && Nat.eqb (hpc_n (uh a)) (hpc_n (uh b)) && Nat.eqb (pst_n (upr a)) (pst_n (upr b))
   && Bool.eqb (uctx a) (uctx b) && Nat.eqb (tmr_n (utm a)) (tmr_n (utm b)) && Bool.eqb (uintr a) (uintr b)
-  && Bool.eqb (ukil a) (ukil b) && Nat.eqb (usent a) (usent b) && Nat.eqb (urecv a) (urecv b).
+  && Bool.eqb (ukil a) (ukil b) && Bool.eqb (usigerr a) (usigerr b) && Nat.eqb (usent a) (usent b) && Nat.eqb (urecv a) (urecv b).
 
 Definition umem (s : ustate) (l : list ustate) : bool := existsb (ustate_eqb s) l.
 
@@ -181,7 +191,7 @@ Definition closed (p : uparams) (r : list ustate) : bool :=
 
 (* ---- what must hold in every reachable state *)
 
-Definition w_done (x : wpc) : bool := match x with WDoneWait | WDoneCtx => true | _ => false end.
+Definition w_done (x : wpc) : bool := match x with WDoneWait | WDoneCtx | WDoneSig => true | _ => false end.
 Definition h_done (x : hpc) : bool := match x with HDone => true | _ => false end.
 Definition enabled (p : uparams) (l : ulabel) (s : ustate) : bool := match ustep p l s with Some _ => true | None => false end.
 
@@ -207,18 +217,24 @@ Definition ugood (p : uparams) (s : ustate) : bool :=
                        | None => true
                        end) all_labels
   (* attribution: the context error is returned exactly when Signal(interrupt) succeeded *)
-  && (match uw s with WDoneCtx => uintr s && uctx s | WDoneWait => negb (uintr s) | _ => true end)
-  (* the kill is sent only after a successful interrupt and the expiry of the timer, with killDelay > 0 *)
-  && (negb (ukil s) || (kd_pos p && uintr s && match utm s with TFired => true | _ => false end))
-  (* no signal before the context is done; none at all without a deadline *)
-  && (negb (uintr s) || (uctx s && has_ctx p))
+  && (match uw s with
+      | WDoneCtx => (uintr s || usigerr s) && uctx s
+      | WDoneWait => negb (uintr s) && negb (usigerr s)
+      | WDoneSig => usigerr s && uctx s
+      | _ => true
+      end)
+  (* the kill is sent only after an attempted interrupt and the expiry of the timer, with killDelay > 0 *)
+  && (negb (ukil s) || (kd_pos p && (uintr s || usigerr s) && match utm s with TFired => true | _ => false end))
+  (* no signal before the context is done; none at all without a deadline; never both outcomes *)
+  && (negb (uintr s || usigerr s) || (uctx s && has_ctx p && negb (uintr s && usigerr s) && Bool.eqb (usigerr s) (sig_fails p)))
   && (match uh s with HSel1 | HDone => true | _ => uctx s end)
   (* reaped exactly when Wait has returned *)
   && Bool.eqb (match upr s with PReaped => true | _ => false end) (negb (match uw s with WWait => true | _ => false end)).
 
 Definition all_params : list uparams :=
-  flat_map (fun a => flat_map (fun b => flat_map (fun c => map (fun d =>
-    {| has_ctx := a; kd_pos := b; self_exit := c; int_exit := d |}) [false; true]) [false; true]) [false; true]) [false; true].
+  flat_map (fun a => flat_map (fun b => flat_map (fun c => flat_map (fun d => map (fun e =>
+    {| has_ctx := a; kd_pos := b; self_exit := c; int_exit := d; sig_fails := e |})
+    [false; true]) [false; true]) [false; true]) [false; true]) [false; true].
 
 (* ------------------------------------------------------------------ 3. timed runs of waitOrStop *)
 
@@ -318,7 +334,7 @@ Definition wos (p : tparams) (o : oracle) : tout :=
 
 Definition is_some {A} (o : option A) : bool := match o with Some _ => true | None => false end.
 Definition uparams_of (p : tparams) : uparams :=
-  {| has_ctx := is_some (tC p); kd_pos := 0 <? tK p; self_exit := is_some (tE p); int_exit := is_some (tI p) |}.
+  {| has_ctx := is_some (tC p); kd_pos := 0 <? tK p; self_exit := is_some (tE p); int_exit := is_some (tI p); sig_fails := false |}.
 
 Definition bounded (sigma : Z) (o : oracle) : Prop :=
   0 <= dw o <= sigma /\ 0 <= dc o <= sigma /\ 0 <= ds o <= sigma /\ 0 <= da o <= sigma /\
